@@ -7,7 +7,8 @@ AREA = 'core'
 MODEL_FILES = 'Heap.v (allocator, liveness, ownership, error outcomes), CoreDefs.v, CoreOps.v'
 RULE = ('the C06 histories with the ownership features weighted up: reference nodes (string/object/array references, AddItemReference*), constant keys, items moved between '
         'containers, SetValuestring in place / reallocating / on its own value, duplicates, bulk constructors, and key arguments that are pointers into existing items — in '
-        'particular cJSON_AddItemToObject(o, item->string, item) and cJSON_ReplaceItemInObject(o, repl->string, repl); every history ends by deleting all remaining roots; '
+        'particular cJSON_AddItemToObject(o, item->string, item) and cJSON_ReplaceItemInObject(o, repl->string, repl); print calls (all variants, text released with cJSON_free) '
+        'interleaved, and a family printing > 256 bytes with the k-th request of the print call failing (custom hooks: manual buffer growth); every history ends by deleting all remaining roots; '
         'implementation under ASan + tracking allocator + canaries around caller strings; observables: ledger after every call and at the end, double / foreign release, '
         'canaries; verdict: ledger equals the list model after every call, zero after the final deletes, no allocator complaint, no sanitizer report')
 ASSUMPTIONS = ['histories respect the documented ownership rules (a referenced tree outlives its references; constant keys and referenced strings outlive the items)',
@@ -34,11 +35,11 @@ def aliasing_cases():
 def generate(ctx):
     rng = random.Random(ctx['seed'] * 104729 + 7)
     quick = ctx['tier'] == 'quick'
-    cases = aliasing_cases()
+    cases = aliasing_cases() + coregen.print_failure_cases()
     n = 400 if quick else 6000
     for i in range(n):
         nops = 40 if quick else rng.choice([20, 40, 80, 200])
-        cases.append(coregen.history_case(rng, 'own' if i % 5 else 'dup', nops, 'DX'))
+        cases.append(coregen.history_case(rng, 'own' if i % 5 else 'dup', nops, 'DX', with_print=True))
     return cases
 
 def project(c, out): return coregen.ledger_only(out)
@@ -47,6 +48,14 @@ def verdict(c, out, ctx):
     hp = coregen.health_problem(out)
     if hp: return hp
     if ' X live=' in out and ' X live=0' not in out: return 'blocks remain allocated after deleting every root: ' + out[out.index(' X live='):][:40]
+    ops = [x for x in c.line.split(' ')[3].split(';') if x]
+    segs = out.split(' ; ')
+    def live_after(i):
+        for t in segs[i].split(' '):
+            if t.startswith('L') and t[1:].isdigit(): return int(t[1:])
+    for i, o in enumerate(ops):     # printing (successful or not) leaves the ledger as it was
+        if o.startswith('print') and 0 < i < len(segs) and live_after(i) != live_after(i - 1):
+            return 'ledger changed across call %d (%s): %s -> %s blocks' % (i, o, live_after(i - 1), live_after(i))
     exp = coregen.expected(c.line)
     if exp is None: return None
     a, b = coregen.ledger_only(out).split(' '), coregen.ledger_only(exp).split(' ')
